@@ -696,6 +696,37 @@ func mirrorNoTarget(c *Ctx, op string) {
 			}
 		}
 	}
+	// single-object targets in directories with telling names (`ca+backup`, `x.ca+file`): what decides how a target is
+	// addressed is its scheme. The slot holds another ware (or junk); after a successful mirror of W it serves W
+	{
+		src2 := filepath.Join(base, "src2")
+		os.MkdirAll(src2, 0755)
+		os.WriteFile(filepath.Join(src2, "other"), []byte("another ware"), 0644)
+		for k, dn := range []string{"mirrors/ca+backup", "x.ca+file", "plain"} {
+			slot := filepath.Join(base, dn, "ware."+fmtName)
+			os.MkdirAll(filepath.Dir(slot), 0755)
+			tgt := api.WarehouseLocation("file://" + slot)
+			if k%2 == 0 {
+				fn.pack(ctx, api.PackType(fmtName), src2, api.MustParseFilesetPackFilter(losslessPackStr), tgt, rio.Monitor{})
+			} else {
+				os.WriteFile(slot, []byte("junk that is no archive"), 0644)
+			}
+			g4, e4, p4 := safeCall(func() (api.WareID, error) {
+				return fn.mirror(ctx, id, tgt, []api.WarehouseLocation{whAddr("ca", wh)}, rio.Monitor{})
+			})
+			c.H("mirror-slotname:" + strings.Fields(resTok(g4, e4, p4))[0])
+			if p4 != "" {
+				c.PropFail("mirror-panic", "mirror into an occupied single-object target panicked: "+p4, op)
+			} else if e4 == nil {
+				g5, e5, p5 := safeCall(func() (api.WareID, error) {
+					return fn.unpack(ctx, id, filepath.Join(base, fmt.Sprintf("slot-dst%d", k)), api.MustParseFilesetUnpackFilter(losslessUnpackStr), rio.Placement_Direct, []api.WarehouseLocation{tgt}, rio.Monitor{})
+				})
+				if r := resTok(g5, e5, p5); r != "ok "+id.Hash {
+					c.PropFail("mirror-not-served", fmt.Sprintf("Mirror(W -> %s) answered success (the slot held something else before); the target alone answers %s", tgt, r), op)
+				}
+			}
+		}
+	}
 	got, merr, pan := safeCall(func() (api.WareID, error) {
 		return fn.mirror(ctx, id, "", []api.WarehouseLocation{whAddr("ca", wh)}, rio.Monitor{})
 	})
